@@ -16,6 +16,12 @@ type c13B struct {
 	files []*rj.File
 }
 
+func c13MkNil(log *[]string) rj.Inputs {
+	in := c13Mk(log)
+	in.Data = nil // '.' is absent at try entry: restoring it means making it absent again
+	return in
+}
+
 func c13Mk(log *[]string) rj.Inputs {
 	return rj.Inputs{Vars: map[string]interface{}{
 		"cT": true, "cF": false, "rS": []string{"e1", "e2"}, "rOne": []string{"only"},
@@ -149,9 +155,11 @@ var c13Space = registerSpace(&e1Space{
 		if th {
 			n += f * f * f * f
 		}
-		return n * 3 * 4 * int64(len(c13Fails))
+		return n * 3 * 4 * int64(len(c13Fails)) * 2
 	},
 	Gen: func(i int64, th bool) *rj.Program {
+		nilData := i%2 == 1
+		i /= 2
 		fl := c13Fails[i%int64(len(c13Fails))]
 		i /= int64(len(c13Fails))
 		catchForm := int(i % 4)
@@ -177,12 +185,19 @@ var c13Space = registerSpace(&e1Space{
 		if len(frames) == 0 && fl[0] == 2 {
 			return nil
 		}
-		return c13Build(placement, catchForm, frames, fl[0], fl[1])
+		if nilData && len(frames) > 2 {
+			return nil // nil data: frames <= 2
+		}
+		p := c13Build(placement, catchForm, frames, fl[0], fl[1])
+		if nilData {
+			p.Mk = c13MkNil
+		}
+		return p
 	},
 })
 
 func C13(r *core.Run) map[string]interface{} {
-	r.Rule = "try bodies built from every sequence of <=3 (thorough 4) nested frames over 10 frame kinds (range, range with variables, if-let, let, yield with parameters and context, yield with content - failure in content / in block body, include with context, exec, inner try that catches) x failure (none, at the innermost point, after the innermost frame, at the end; undefined identifier / error panic / string panic) x 4 catch forms x 3 placements (top, inside range, inside a block yielded with content); after the try the program probes context, variables, catch variable and {{yield content}}; distinct = distinct reference outcomes"
+	r.Rule = "try bodies built from every sequence of <=3 (thorough 4) nested frames over 10 frame kinds (range, range with variables, if-let, let, yield with parameters and context, yield with content - failure in content / in block body, include with context, exec, inner try that catches) x failure (none, at the innermost point, after the innermost frame, at the end; undefined identifier / error panic / string panic) x 4 catch forms x 3 placements (top, inside range, inside a block yielded with content) x data present / nil; after the try the program probes context, variables, catch variable and {{yield content}}; distinct = distinct reference outcomes"
 	runSpace(r, c13Space)
 	return map[string]interface{}{"frames": c13NFrames, "traces_validated_against_impl": r.Evals()}
 }
